@@ -29,8 +29,8 @@ USERINFO_LIT = pct.UNRESERVED + pct.SUB_DELIMS
 DEFAULT = {"http": 80, "https": 443, "ws": 80, "wss": 443, "ftp": 21}
 
 SCHEMES = ["http", "https", "x", ""]
-USERS = [None, "u", "a%40b"]
-PASSWORDS = [None, "", "p%3Aq"]
+USERS = [None, "u", "a%40b", "J%F6rg%C3"]   # last: escapes that are not valid UTF-8 (kept verbatim)
+PASSWORDS = [None, "", "p%3Aq%FF"]
 HOSTS = [("h.com", "h.com"), ("xn--9ca.com", "xn--9ca.com"), ("1.2.3.4", "1.2.3.4"), ("[::1]", "::1"), ("[fe80::1%eth0]", "fe80::1%eth0")]
 PORTS = [None, 0, "default", 81]
 PATHS = ["", "/", "/p", "/a/b/"]
